@@ -917,6 +917,18 @@ def tasks_for(thorough, rng):
             add("k2", sc, ["R", "O"], defaults=False)
         if len(sc) <= 3 and kinds & {"C", "Cs"} and any(s == "A" and a[0] == "s" for s, a in sc):
             add("k2", sc, ["R", "O"], cfg_first=False)
+    # ---- (1b) targeted 4-atom scenarios: a config / default config file names one subcommand and has sections for it and for
+    # another one, the command line names the other one (its given settings must arrive)
+    for tid in ("k2", "k3"):
+        names = [c.name for c in T[tid].root.children]
+        for src1 in ("C", "D"):
+            for named in names:
+                for other in names:
+                    if other != named:
+                        sc = ((src1, ("n", (), named)), (src1, ("s", (named,))), (src1, ("s", (other,))), ("A", ("n", (), other)))
+                        add(tid, sc, ["R", "O"], all_modes=True)
+                        if src1 == "C":
+                            add(tid, sc, ["R", "O"], defaults=False)
     # ---- (2) one, three (and four) subcommands per level
     for tid, n in ((("k1", 3), ("k3", 2), ("k4", 2), ("k3", 3)) if thorough else (("k1", 2), ("k3", 2))):
         for sc in combos(T[tid], n):
